@@ -75,6 +75,28 @@ std::string projectShape(NifFile& nif, NiShape* shape, ContentIds& ids) {
 		acid.raw("eye", lst(eye.data(), eye.size(), sizeof(float)));
 		o.raw("acid", acid.done());
 	}
+	// numeric codes for the comparisons "within storage precision" (C12): UVs in 1/2048, colours in 1/255
+	{
+		JArr uvq, colq;
+		for (auto& u : uvs) {
+			JArr p;
+			p.add((long long) llround(std::max(-1000.0, std::min(1000.0, double(u.u))) * 2048.0)).add((long long) llround(std::max(-1000.0, std::min(1000.0, double(u.v))) * 2048.0));
+			uvq.add(p);
+		}
+		for (auto& c : cols) {
+			JArr p;
+			p.add((long long) llround(c.r * 255.0)).add((long long) llround(c.g * 255.0)).add((long long) llround(c.b * 255.0)).add((long long) llround(c.a * 255.0));
+			colq.add(p);
+		}
+		o.raw("uvq", uvq.done()).raw("colq", colq.done());
+		auto shader = nif.GetShader(shape);
+		o.add("shader", shader ? shader->GetBlockName() : "");
+		auto parent = nif.GetParentNode(shape);
+		o.add("parent", parent ? parent->name.get() : std::string(""));
+		JArr tex;
+		for (auto& t : nif.GetTexturePathRefs(shape)) tex.add(t.get());
+		o.raw("textures", tex.done());
+	}
 	JArr vattr;
 	for (size_t i = 0; i < verts.size(); i++) {
 		std::string d;
@@ -276,7 +298,8 @@ bool skinShape(NifFile& nif, NiShape* shape, size_t nbones, const std::function<
 			nif.SetShapeVertWeights(shape->name.get(), v, ids, w);
 		}
 	}
-	else {
+	// NiSkinData (where the version has it) carries the same weights, as in files written by the games' tools
+	if (nif.GetHeader().GetBlock<NiSkinInstance>(shape->SkinInstanceRef())) {
 		for (size_t b = 0; b < nbones; b++) {
 			std::unordered_map<uint16_t, float> m;
 			for (uint16_t v = 0; v < nv; v++)
